@@ -156,6 +156,27 @@ def run(R):
             R.viol("C02.rebuild", "farthest-not-recomputed", "with_config does not recompute farthest_record from the recovered index", wc, wc.lines[0])
         R.inst("C02.rebuild", "K6 flows-to", "records, records_by_distance and farthest_record are rebuilt from the files found at start-up", 3, ok)
         R.must_call("C02.rebuild.walk", SCAN, ["walkdir::WalkDir::new"], "scan walks the storage directory")
+        # the scan runs on every start, whatever else could or could not be restored
+        R.must_pass("C02.rebuild.always", wc, [("update_records_from_an_existing_store", CallSink(SCAN))], descr="with_config scans the storage directory on every path")
+        # ... and walks the whole directory: nothing bounds or skips entries between WalkDir and the collected index
+        sb = R.body("C02.rebuild.all", SCAN)
+        if sb is not None:
+            prep(sb)
+            from rules import _chain_calls
+            names, _f = _chain_calls(F, sb, 0, depth=0)
+            BOUNDING = ("::take", "::skip", "::step_by", "::take_while", "::skip_while", "::nth", "::last", "::first", "::truncate", "::max_depth", "::min_depth", "::split_off", "::drain", "::pop")
+            bounded = [n for n in names if n.endswith(BOUNDING) or any((x + "<") in n for x in BOUNDING)]
+            ok_all = "walkdir::WalkDir::new" in names and not bounded
+            if not ok_all:
+                R.viol("C02.rebuild.all", "walk-bounded:%s" % (bounded[0].split("::")[-1] if bounded else "walk-missing"),
+                       "the start-up scan does not index every file of the storage directory (%s between the directory walk and the index)" % (bounded[0] if bounded else "WalkDir not on the chain"), sb, sb.lines[0])
+            R.inst("C02.rebuild.all", "K6 flows-to", "index = every entry of WalkDir(storage_dir) that passes process_entry: no take/skip/depth bound", len(names), ok_all)
+    # (3b) files are touched only by their owning functions, removals delete the file (rules shared with C01)
+    from props.C01 import disk_rules, remove_and_mark_rules
+    disk_rules(R, "C02.disk")
+    remove_and_mark_rules(R, "C02.disk")
+    if True:
+        pass
 
     # (4) stable identity
     bn = R.body("C02.seed", "ant_networking::driver::NetworkBuilder::build_node")
